@@ -425,6 +425,10 @@ func c17Body(rc *RunCtx) {
 				simrt.SetOp(0)
 				if b, ok := disk.ReadRaw(filepath.Join(c17Home, "logs", r.Name)); ok {
 					r.snap, r.snapOK = string(b), true
+				} else if rd := d.removed[filepath.Base(filepath.Join(c17Home, "logs", r.Name))]; rd != nil && filepath.Dir(filepath.Join(c17Home, "logs", r.Name)) == filepath.Join(c17Home, "logs") {
+					// retention removed the file between the call and this snapshot (a clock step
+					// aged it): what Read returned is judged against the removed file's content
+					r.snap, r.snapOK = string(rd()), true
 				}
 			}
 		})
